@@ -919,12 +919,13 @@ class PDFDocument:
                     seen.add(entry.objid)
                 entry = dict_value(entry)
                 if "Title" in entry:
-                    if "A" in entry or "Dest" in entry:
-                        title = decode_text(str_value(entry["Title"]))
-                        dest = entry.get("Dest")
-                        action = entry.get("A")
-                        se = entry.get("SE")
-                        yield (level, title, dest, action, se)
+                    # /Dest and /A are both optional: an item may only group
+                    # its children.
+                    title = decode_text(str_value(entry["Title"]))
+                    dest = entry.get("Dest")
+                    action = entry.get("A")
+                    se = entry.get("SE")
+                    yield (level, title, dest, action, se)
                 if "First" in entry and "Last" in entry:
                     yield from search(entry["First"], level + 1)
                 if "Next" not in entry:
